@@ -9,3 +9,6 @@ import WrglModel.Props.C16
 #print axioms Wrgl.C16_error_report_never_blocks
 #print axioms Wrgl.C16_error_report_blocks_witness
 #print axioms Wrgl.C16_fact_pbarLazyInitLocked
+#print axioms Wrgl.C16_fact_pbarDoneForcesCompletion
+#print axioms Wrgl.C16_pbar_done_returns
+#print axioms Wrgl.C16_pbar_done_blocks_witness
